@@ -345,7 +345,7 @@ func checkD(c CaseD) *core.Violation {
 			"file %d, %s (%s): written %s, loaded %s (%d differing item(s))\npool: %q\n--- profile ---\n%s", file, d.Path, sp, d.Want, d.Got, len(diffs), c.Pool, src)
 	}
 	if v := one(1, c.Cfg, c.Src); v != nil {
-		if c.Pad != nil {
+		if c.Pad != nil && v.Sig != astralSig {
 			v.Sig += "|" + padLabels(c.Pad, 0)[1]
 		}
 		return v
@@ -356,7 +356,9 @@ func checkD(c CaseD) *core.Violation {
 		}
 		// and the first file once more, after the second one went through the same process
 		if v := one(1, c.Cfg, c.Src); v != nil {
-			v.Sig += "|reloaded"
+			if v.Sig != astralSig {
+				v.Sig += "|reloaded"
+			}
 			return v
 		}
 	}
